@@ -21,7 +21,7 @@ import (
 	"runtime/debug"
 	"sort"
 	"strings"
-		"unicode/utf8"
+	"unicode/utf8"
 
 	"github.com/getkin/kin-openapi/openapi3"
 	"github.com/ghodss/yaml"
